@@ -24,6 +24,11 @@ type verModel struct {
 	fuzzy map[string]bool
 }
 
+// c05Meta: every upload carries metadata that identifies it.
+func c05Meta(body []byte) http.Header {
+	return http.Header{"X-Amz-Meta-V": {HexLower(body)}}
+}
+
 func setVersioning(h http.Handler, status string) *Recorder {
 	rq := BodyReq("PUT", "/bkt", nil, VersioningBody(status))
 	rq.Query = url.Values{"versioning": {""}}
@@ -49,6 +54,7 @@ func c05Observe(h http.Handler, m *verModel, k string) {
 	} else {
 		vsym.Assert(r.Code() == 200, "C05/unqualified-read-status")
 		vsym.Assert(string(r.Body) == string(t.body), "C05/unqualified-read-newest")
+		vsym.Assert(r.Hdr.Get("X-Amz-Meta-V") == HexLower(t.body), "C05/unqualified-read-metadata")
 	}
 	for _, e := range m.stack[k] {
 		if e.id == "" || !e.enabled {
@@ -69,6 +75,7 @@ func c05Observe(h http.Handler, m *verModel, k string) {
 		vsym.Assert(rh.Code() == 200, "C05/head-version-status")
 		vsym.Assert(rh.Hdr.Get("ETag") == etag, "C05/head-version-etag")
 		vsym.Assert(rh.Hdr.Get("Content-Length") == itoa(len(e.body)), "C05/head-version-length")
+		vsym.Assert(rg.Hdr.Get("X-Amz-Meta-V") == HexLower(e.body) && rh.Hdr.Get("X-Amz-Meta-V") == HexLower(e.body), "C05/version-metadata")
 	}
 }
 
@@ -99,7 +106,7 @@ func c05Step(h http.Handler, m *verModel, keys []string) {
 	switch op {
 	case 0: // put
 		body := vsym.Bytes("body", 1)
-		r := Do(h, BodyReq("PUT", "/bkt/"+k, nil, body))
+		r := Do(h, BodyReq("PUT", "/bkt/"+k, c05Meta(body), body))
 		vsym.Assert(r.Code() == 200, "C05/put-status")
 		id := r.Hdr.Get("x-amz-version-id")
 		if m.mode == 1 {
@@ -187,7 +194,7 @@ func VH_C05() {
 	// optional fixed prefix of the history: that many puts of key k
 	for i := 0; i < vsym.Param("preputs", 0); i++ {
 		body := []byte{byte('a' + i)}
-		r := Do(h, BodyReq("PUT", "/bkt/k", nil, body))
+		r := Do(h, BodyReq("PUT", "/bkt/k", c05Meta(body), body))
 		vsym.Assert(r.Code() == 200, "C05/put-status")
 		if m.mode == 1 {
 			m.stack["k"] = append(m.stack["k"], verEntry{id: r.Hdr.Get("x-amz-version-id"), body: body, enabled: true})
